@@ -183,12 +183,9 @@ static std::string step(const std::string& line) {
   if (w[0] == "jitadd") {
     JitRuntime rt;
     void* fn = nullptr;
-    Error e = rt._add(&fn, &c);
+    Error e = rt.add(&fn, &c);
     if (e != Error::kOk) return err_name(e);
     size_t n = c.code_size();
-    // When the final size is 0 (only unused address-table entries) JitRuntime::_add has already released the span
-    // (shrink to 0) and still returns kOk with the stale pointer: nothing to read, and releasing it again is a crash.
-    if (n == 0) return "ok -";
     std::string out = "ok " + rle(static_cast<const uint8_t*>(fn), n);
     rt.release(fn);
     return out;
